@@ -1,7 +1,7 @@
 (* Extract/Driver.v — dispatch : sexp -> sexp, the single entry point of the extracted model *)
 From Coq Require Import List Bool Ascii String ZArith.
 From FM Require Import Base.Result Base.Str Base.Sexp Base.AstOp Model.Ast Model.FM Model.Ctc
-     Model.Queries Model.Sem Model.Ops Model.EqHash Model.PFM Format.Json Format.Glencoe Format.Xml Format.Uvl Format.Afm Model.Metrics Extract.Codec.
+     Model.Queries Model.Sem Model.Ops Model.EqHash Model.PFM Format.Json Format.Glencoe Format.Xml Format.Uvl Format.Afm Format.Export Model.Metrics Extract.Codec.
 Import ListNotations.
 Open Scope string_scope.
 
@@ -145,6 +145,18 @@ Definition e_entry (e : entry) : sexp :=
   SList [SStr (me_method e); SStr (me_name e); e_mval (me_result e); e_opt e_z (me_size e);
          e_opt e_z (me_ratio e); e_opt SStr (me_parent e); e_z (me_level e)].
 
+(* exports: texts, and (for small models) the selections each exported document admits *)
+Definition e_sels (l : list (list string)) : sexp := SList (map (fun s => SList (map SStr s)) l).
+Definition op_export_sat (m : fm) : sexp :=
+  let subsets := all_subsets (names (root m)) in
+  e_tag "export_sat"
+    [e_tag "splot" [e_result (fun d => e_sels (filter (fun sel => sigma_of sel (name (root m)) && sxfm_sat (sigma_of sel) d) subsets))
+                             (splot_write m)];
+     e_tag "pl" [e_result (fun d => e_sels (filter (fun sel => pl_sat (sigma_of sel) d) subsets)) (pl_write m)];
+     e_tag "clafer" [e_result (fun d => e_sels (filter (fun sel =>
+                                   clafer_sat (fun n => existsb (fun s => String.eqb (w_safename s) n) sel) d) subsets))
+                              (clafer_write m)]].
+
 Definition bad (msg : string) : sexp := e_tag "bad-request" [SStr msg].
 
 Definition dispatch (req : sexp) : sexp :=
@@ -263,6 +275,26 @@ Definition dispatch (req : sexp) : sexp :=
       else if String.eqb op "afm_read_cst" then
         match args with
         | [c] => match d_adoc c with Some c' => e_result e_pfm (afm_read_cst c') | None => bad "adoc" end
+        | _ => bad "arity"
+        end
+      else if String.eqb op "splot_text" then
+        match args with
+        | [m] => match d_fm m with Some m' => e_result SStr (splot_text m') | None => bad "fm" end
+        | _ => bad "arity"
+        end
+      else if String.eqb op "pl_lines" then
+        match args with
+        | [m] => match d_fm m with Some m' => e_result (e_list SStr) (pl_lines m') | None => bad "fm" end
+        | _ => bad "arity"
+        end
+      else if String.eqb op "clafer_text" then
+        match args with
+        | [m] => match d_fm m with Some m' => e_result SStr (clafer_text m') | None => bad "fm" end
+        | _ => bad "arity"
+        end
+      else if String.eqb op "export_sat" then
+        match args with
+        | [m] => match d_fm m with Some m' => op_export_sat m' | None => bad "fm" end
         | _ => bad "arity"
         end
       else if String.eqb op "echo_fm" then
